@@ -29,39 +29,29 @@ Theorem C15_eval_repr : forall s, vstr s = true -> py_eval (py_repr s) = Ok s.
 Proof. exact evalrepr_v. Qed.
 Print Assumptions C15_eval_repr.
 
-(* ---- the file layer: for a well-formed name the saved line is read back as (name, text),
-   whatever the class and the value *)
+(* ---- the file layer: the saved line is read back as (name, text), whatever the class and the value.
+   name_ok name = no blank, not a comment line, not ending with an odd number of backslashes;
+   every name built by join_names has the last property (C15_joined_names_ok), so after the
+   repair of F22 a name ending with a backslash is covered. *)
 Theorem C15_file_transparent :
   forall name k fresh oks v, name_ok name = true -> vstr (str_of k v) = true ->
   reload name k fresh oks v = set_text k fresh oks (str_of k v).
 Proof. exact reload_ok. Qed.
 Print Assumptions C15_file_transparent.
 
-(* "the file always loads" is violated: a variable name ending with a backslash *)
-Theorem C15_file_loads_refuted :
-  exists name, name_ok name = false /\ open_registry (value_line name KString (PS [97])) = Raise ValueError.
-Proof. exact file_loads_refuted. Qed.
-Print Assumptions C15_file_loads_refuted.
+Theorem C15_joined_names_ok :
+  forall ns, nows (join_names ns) = true -> startswith [HASH] (join_names ns) = false ->
+  name_ok (join_names ns) = true.
+Proof. exact joined_name_ok. Qed.
+Print Assumptions C15_joined_names_ok.
 
-(* ---- String.  Full statement: forall v, reload name KString fresh oks (PS v) = Ok (PS v).
-   Violated by the pinned code (finding F16); string_dom v = needs_quoting v || negb (both_quoted v). *)
-Theorem C15_string_roundtrip_on_domain :
+(* ---- String: every value survives save/reload (full statement since the repair of F16) *)
+Theorem C15_string_roundtrip :
   forall name fresh oks v,
-  name_ok name = true -> vstr v = true -> string_dom v = true -> hd_ok oks = true ->
+  name_ok name = true -> vstr v = true -> hd_ok oks = true ->
   reload name KString fresh oks (PS v) = Ok (PS v).
-Proof. exact string_reload_on_domain. Qed.
-Print Assumptions C15_string_roundtrip_on_domain.
-
-Theorem C15_string_roundtrip_refuted :
-  exists name v, name_ok name = true /\ vstr v = true /\ string_dom v = false /\
-    reload name KString (PS []) [] (PS v) = Raise InvalidRegistryValue.
-Proof. exact string_reload_refuted. Qed.
-Print Assumptions C15_string_roundtrip_refuted.
-
-Theorem C15_string_roundtrip_refuted_changed :
-  exists v w, vstr v = true /\ string_dom v = false /\ string_parse (string_str v) = Ok w /\ w <> v.
-Proof. exact string_roundtrip_refuted_changed. Qed.
-Print Assumptions C15_string_roundtrip_refuted_changed.
+Proof. exact string_reload. Qed.
+Print Assumptions C15_string_roundtrip.
 
 (* ---- Boolean, Integer family *)
 Theorem C15_boolean_roundtrip :
@@ -128,8 +118,7 @@ Proof. exact Inv_init. Qed.
 Print Assumptions C15_tree_initial.
 
 (* the hypothesis "every value is reproduced by str()/set()" (safe) holds for these values ... *)
-Theorem C15_string_values_safe : forall dflt v, vstr v = true -> string_dom v = true ->
-  safe pv (k_reparse KString dflt) (PS v).
+Theorem C15_string_values_safe : forall dflt v, vstr v = true -> safe pv (k_reparse KString dflt) (PS v).
 Proof. exact string_value_safe. Qed.
 Print Assumptions C15_string_values_safe.
 
@@ -141,14 +130,7 @@ Theorem C15_integer_values_safe : forall lo dflt z, int_accepts lo z = true -> s
 Proof. exact integer_value_safe. Qed.
 Print Assumptions C15_integer_values_safe.
 
-(* ... and is needed: with the general String value DQ, getSpecific for a channel raises (F16) *)
-Theorem C15_specific_refuted :
-  exists v c, string_dom v = false /\
-    snd (step pv (k_reparse KString (PS [])) (k_settext KString) (mktree pv (PS v) [] []) (OGet (AC c)))
-    = Raise InvalidRegistryValue.
-Proof. exact specific_refuted. Qed.
-Print Assumptions C15_specific_refuted.
-
+(* ... and is needed in general (an abstract value type whose str()/set() changes the value) *)
 Theorem C15_specific_unsafe_refuted :
   exists (t : tree nat) (s : spec nat) (c : str),
     Inv nat (fun v => Ok v) t s /\
